@@ -126,6 +126,36 @@ def run(prog, rep, tier='quick', config='default'):
                                      'one security\'s spelling changes how another security\'s rows are grouped')
     rep.extra['affiliate_construction_sites'] = n_new
 
+    # ------------------------------------------------------------------ R8g: the interning table is keyed by the parsed id
+    # every key used on the id -> Affiliate table by a function that stores into it is the `id` of the parsed AffiliateData (or the
+    # id() of the Affiliate being stored): a key computed from the raw spelling interns two spellings of one id as two values that
+    # hash alike and compare unequal — the rows of one affiliate then fall apart into two
+    TABLE = re.compile(r'(HashMap|Entry)<.*std::string::String, ' + re.escape(AFF))
+    n_keys = 0
+    for g in prog.product_fns():
+        if mir.is_testsupport(g.name) or g.kind not in ('Fn', 'AssocFn'):
+            continue
+        grp = prog.body_group(g)
+        uses = [(h, x) for h in grp for x in h.calls if x.short in ('insert', 'entry', 'get', 'get_mut', 'contains_key', 'remove') and
+                len(x.args) > 1 and TABLE.search(h.ty.get(x.arg_local(0), '') or '')]
+        if not any(x.short in ('insert', 'entry') for (_, x) in uses):
+            continue
+        for (h, x) in uses:
+            n_keys += 1
+            o = mir.provenance(h, x.args[1], follow_all_call_args=True)
+            by_id = any(fl == 'id' and of.endswith('AffiliateData') for (of, fl) in o.fields) or \
+                any(y.callee.endswith('affiliate::Affiliate::id') for y in o.calls)
+            k = '%s|table-keyed-by-parsed-id|%s' % (g.name, x.short)
+            if by_id:
+                rep.ok('R8g', k, where=x.where(), fn=h.name, detail='the key is AffiliateData.id / Affiliate::id() of the value looked up or stored')
+            else:
+                rep.violation('R8g', k, where=x.where(), fn=h.name,
+                              detail='the id -> Affiliate table is used with a key that is not the parsed id (it derives from %s): two spellings of one '
+                                     'affiliate are interned as two values that hash alike but compare unequal, and the affiliate\'s rows fall apart'
+                              % (', '.join(sorted({y.short for y in o.calls})[:4]) or 'the raw text'))
+    if n_keys == 0:
+        rep.violation('R8g', 'anchor-lost:table-keys', detail='anchor lost: no function stores into the id -> Affiliate table')
+
     # ------------------------------------------------------------------ R8b
     entry = prog.fn('portfolio::bookkeeping::delta_list::txs_to_delta_list')
     if rep.anchor('per-security bookkeeping entry point txs_to_delta_list', entry):
